@@ -250,6 +250,38 @@ fn engine_bigitem(terms: &[Term], checks: u32, tier: Tier, kernels: &[&str]) -> 
     out
 }
 
+/// sources in a particular *state* (concurrent iterators advanced before `into_par()`, both ring-buffer layouts of a
+/// `VecDeque`) crossed with inputs of 150-300 elements and chunks of 64 / 100 / Auto elements: positions reported
+/// by such a source are not positions among the remaining elements
+fn engine_prestate(terms: &[Term], checks: u32, tier: Tier) -> Vec<Item> {
+    let th = tier == Tier::Thorough;
+    let mut out = Vec::new();
+    for src in [Src::PConVecPre, Src::PConSlicePre, Src::PConRangePre, Src::PConIterPre, Src::PDeque, Src::PDequeRef] {
+        for cid in chains::SMALL {
+            for t in terms {
+                if !term_ok(src, cid, *t) {
+                    continue;
+                }
+                for n in [151usize, 300] {
+                    for (w, cs) in [(2usize, CsSet::N(64)), (3, CsSet::N(100)), (2, CsSet::Keep)] {
+                        if !th && n == 151 && w == 3 {
+                            continue;
+                        }
+                        let mut c = par(case(src, 0, chains::CHAINS[cid], *t), w, cs);
+                        c.input = (0..n).map(|i| i as u8).collect();
+                        c.pred_pos = [(n - 5) as u32, u32::MAX];
+                        c.cp_limit = 4;
+                        for mc in mask_variants(&c, false) {
+                            out.push(item(mc, Plan::base_rr().with_horizon(200_000), checks));
+                        }
+                    }
+                }
+            }
+        }
+    }
+    out
+}
+
 /// the computation is built and run inside a closure of another parallel computation (on a worker thread of it)
 fn engine_nested(terms: &[Term], checks: u32, tier: Tier) -> Vec<Item> {
     let th = tier == Tier::Thorough;
@@ -651,6 +683,29 @@ pub fn items(prop: &str, tier: Tier) -> Vec<Item> {
             out.extend(engine_huge(&[Term::CollectVec, Term::Collect], CK_RESULT, tier, &KC4));
             out.extend(engine_bigitem(&[Term::CollectVec, Term::Collect, Term::IntoVec], CK_RESULT, tier, &["", "M", "F", "X", "O"]));
             out.extend(engine_nested(&[Term::CollectVec, Term::Collect], CK_RESULT, tier));
+            out.extend(engine_prestate(&[Term::CollectVec, Term::Collect, Term::IntoVec], CK_RESULT, tier));
+            // zero-sized output type (`.map(|_| ())` appended): capacities of usize::MAX, pointer arithmetic with size 0
+            for (src, known) in [(Src::SVec, true), (Src::PVec, true), (Src::SIter, false)] {
+                for cid in chains::TOK_SUBSET {
+                    for t in [Term::ZCollect, Term::ZCollectVec, Term::ZCollectX, Term::ZIntoSplit, Term::ZIntoVec] {
+                        if !src.supports(cid) || !term_ok(src, cid, t) {
+                            continue;
+                        }
+                        for n in [0usize, 1, 5] {
+                            for (w, cs) in [(2usize, CsSet::N(1)), (3, CsSet::N(2)), (1, CsSet::Keep), (2, CsSet::Keep)] {
+                                let mut c = par(case(src, n, chains::CHAINS[cid], t), w, cs);
+                                c.known = known;
+                                for mc in mask_variants(&c, false) {
+                                    out.push(item(mc.clone(), Plan::base_rr(), CK_RESULT));
+                                    if w > 1 && n > 1 {
+                                        out.push(item(mc, Plan::db(1), CK_RESULT));
+                                    }
+                                }
+                            }
+                        }
+                    }
+                }
+            }
             out.extend(engine_fine(&[Term::CollectVec, Term::Collect], CK_RESULT, tier, &KC4));
             out.extend(engine_e(&[Term::CollectVec, Term::Collect, Term::IntoVec], CK_RESULT, tier, &[], &[]));
         }
@@ -708,6 +763,7 @@ pub fn items(prop: &str, tier: Tier) -> Vec<Item> {
             out.extend(engine_big(&[Term::Find, Term::FindIdx], CK_RESULT, tier, &["", "M", "MF", "OF", "XF"]));
             out.extend(engine_huge(&[Term::Find, Term::FindIdx, Term::All], CK_RESULT, tier, &["", "MF", "OF", "XF"]));
             out.extend(engine_bigitem(&[Term::Find, Term::First], CK_RESULT, tier, &["", "M", "F", "X", "O"]));
+            out.extend(engine_prestate(&[Term::Find, Term::First, Term::Any, Term::All], CK_RESULT, tier));
             out.extend(engine_fine(&[Term::Find, Term::First, Term::Any, Term::FindIdx], CK_RESULT, tier, &["", "M", "MF", "OF", "XF"]));
             // chunks of thousands of elements, sparse matches given by position, a preemption right after a pull:
             // closure entries are scheduling points only for the first two calls of each thread
@@ -839,6 +895,7 @@ pub fn items(prop: &str, tier: Tier) -> Vec<Item> {
             out.extend(engine_big(&[Term::Reduce], CK_RESULT, tier, &["", "M", "MF", "OF", "XF"]));
             out.extend(engine_huge(&[Term::Reduce], CK_RESULT, tier, &["", "MF", "OF", "XF"]));
             out.extend(engine_bigitem(&[Term::Reduce], CK_RESULT, tier, &["", "M", "F", "X", "O"]));
+            out.extend(engine_prestate(&[Term::Reduce], CK_RESULT, tier));
             out.extend(engine_fine(&[Term::Reduce], CK_RESULT, tier, &["", "M", "MF", "OF", "XF"]));
             out.extend(engine_e(&[Term::Reduce], CK_RESULT, tier, &[], &[0, 1, 2, 3]));
         }
@@ -851,6 +908,7 @@ pub fn items(prop: &str, tier: Tier) -> Vec<Item> {
             out.extend(engine_big(&[Term::Count], CK_RESULT, tier, &["", "M", "MF", "OF", "XF"]));
             out.extend(engine_huge(&[Term::Count, Term::ForEach], CK_RESULT, tier, &["M", "MF", "OF", "XF"]));
             out.extend(engine_bigitem(&[Term::Count, Term::ForEach], CK_RESULT, tier, &["M", "F", "X", "O"]));
+            out.extend(engine_prestate(&[Term::Count, Term::ForEach], CK_RESULT, tier));
             out.extend(engine_fine(&[Term::Count, Term::ForEach], CK_RESULT, tier, &["", "M", "MF", "OF", "XF"]));
             out.extend(engine_e(&[Term::Count, Term::ForEach], CK_RESULT, tier, &[], &[]));
         }
@@ -864,6 +922,7 @@ pub fn items(prop: &str, tier: Tier) -> Vec<Item> {
             out.extend(engine_lag(&[Term::CollectVec, Term::Count, Term::Reduce], ck, tier, &["M", "MF", "OF", "XF"]));
             out.extend(engine_huge(&[Term::CollectVec, Term::Count, Term::CollectX], ck, tier, &["M", "MF", "XF"]));
             out.extend(engine_bigitem(&[Term::CollectVec, Term::Reduce], ck, tier, &["M", "F", "X", "O"]));
+            out.extend(engine_prestate(&[Term::CollectVec, Term::Count, Term::Find], ck, tier));
             out.extend(engine_fine(&[Term::CollectVec, Term::Count, Term::Reduce, Term::CollectX, Term::Find], ck, tier, &["M", "MF", "OF", "XF"]));
             out.extend(engine_e(&[Term::CollectVec, Term::Count, Term::Reduce, Term::CollectX, Term::Find], ck, tier, &[0b0100, 0], &[0]));
             // exclusivity: scheduling points *inside* the source iterator's next()
@@ -1005,6 +1064,7 @@ pub fn items(prop: &str, tier: Tier) -> Vec<Item> {
             out.extend(engine_big(&[Term::CollectX], CK_RESULT, tier, &["M", "MF", "OF", "XF"]));
             out.extend(engine_huge(&[Term::CollectX], CK_RESULT, tier, &["M", "MF", "OF", "XF"]));
             out.extend(engine_bigitem(&[Term::CollectX], CK_RESULT, tier, &["M", "F", "X", "O"]));
+            out.extend(engine_prestate(&[Term::CollectX], CK_RESULT, tier));
             out.extend(engine_fine(&[Term::CollectX], CK_RESULT, tier, &KC));
             out.extend(engine_e(&[Term::CollectX], CK_RESULT, tier, &[], &[]));
         }
@@ -1579,6 +1639,7 @@ pub fn items(prop: &str, tier: Tier) -> Vec<Item> {
             out.extend(engine_big(&[Term::CollectVec, Term::Collect, Term::Find], ck, tier, &["MF", "XF"]));
             out.extend(engine_huge(&[Term::CollectVec, Term::Collect, Term::CollectX, Term::IntoSplitD, Term::Reduce, Term::Find], ck, tier, &["M", "MF", "OF", "XF"]));
             out.extend(engine_bigitem(&[Term::CollectVec, Term::Collect, Term::CollectX, Term::IntoVec, Term::Reduce, Term::Find], ck, tier, &["", "M", "F", "X", "O"]));
+            out.extend(engine_prestate(&[Term::CollectVec, Term::CollectX, Term::Reduce, Term::Find], ck, tier));
             out.extend(engine_fine(&[Term::CollectVec, Term::CollectX, Term::Find, Term::Reduce], ck, tier, &["M", "MF", "OF", "XF"]));
             // eager (materialising) chains and deeper chains, sequential and parallel
             for cid in 0..chains::N_CHAINS {
@@ -1863,6 +1924,25 @@ pub fn items(prop: &str, tier: Tier) -> Vec<Item> {
                                 out.push(item(c.clone(), Plan::base_np(), ck));
                             }
                         }
+                    }
+                }
+            }
+            // by-value iterators that announce 9 and 70 million elements, built and dropped: nothing may be pulled ahead
+            // (a prefetch that depends on the announced length is not seen with short inputs)
+            for src in [Src::PIter, Src::SIter, Src::PConIterPar] {
+                for cid in [0usize, 1] {
+                    if !src.supports(cid) || !term_ok(src, cid, Term::Build) {
+                        continue;
+                    }
+                    for n in [9_000_000usize, 70_000_000] {
+                        if n > 9_000_000 && !(th && cid == 0) {
+                            continue;
+                        }
+                        let mut c = case(src, 0, chains::CHAINS[cid], Term::Build);
+                        c.input = (0..n).map(|i| i as u8).collect();
+                        c.known = true;
+                        c.nt[0] = NtSet::Max(2);
+                        out.push(item(c, Plan::base_np(), ck));
                     }
                 }
             }
